@@ -66,6 +66,7 @@ type rewrite struct {
 	// lineMap: original 1-based line -> new 1-based line
 	shiftAt, shiftBy int // lines >= shiftAt (1-based, original) move by shiftBy
 	shift2At, shift2 int
+	indented         bool // a composition that includes the uniform re-indentation
 }
 
 func (rw *rewrite) mapLine(l int) int {
@@ -422,6 +423,110 @@ func genRewrites(d *lexDoc, r *rand.Rand, all bool, perKind int) []*rewrite {
 	return out
 }
 
+type edit struct {
+	pos, del int
+	ins      string
+}
+
+// editOf derives the edit that turns the original into a single-site rewrite (common prefix / common suffix).
+func editOf(orig, rewritten []byte) edit {
+	p := 0
+	for p < len(orig) && p < len(rewritten) && orig[p] == rewritten[p] {
+		p++
+	}
+	s := 0
+	for s < len(orig)-p && s < len(rewritten)-p && orig[len(orig)-1-s] == rewritten[len(rewritten)-1-s] {
+		s++
+	}
+	return edit{pos: p, del: len(orig) - p - s, ins: string(rewritten[p : len(rewritten)-s])}
+}
+
+// composeRewrites builds n compositions: 2-6 single-site rewrites of different lines applied together, then (each with probability
+// 1/2) a uniform re-indentation and a change of the line-ending convention on top.
+func composeRewrites(d *lexDoc, singles []*rewrite, r *rand.Rand, n int) []*rewrite {
+	var local []*rewrite
+	for _, rw := range singles {
+		switch rw.kind {
+		case "R3-trivia", "R4-trailing", "R5-quote", "R6-line-to-block", "R6-block-to-line":
+			local = append(local, rw)
+		}
+	}
+	if len(local) < 2 {
+		return nil
+	}
+	var out []*rewrite
+	for k := 0; k < n; k++ {
+		m := 2 + r.Intn(5)
+		usedLine := map[int]bool{}
+		var eds []edit
+		var parts []string
+		for _, i := range r.Perm(len(local)) {
+			if len(eds) == m {
+				break
+			}
+			e := editOf(d.content, local[i].content)
+			l1, l2 := d.lineOf(e.pos), d.lineOf(e.pos+e.del)
+			if e.pos >= len(d.content) {
+				l1, l2 = len(d.lines), len(d.lines)
+			}
+			clash := false
+			for l := l1 - 1; l <= l2+1; l++ {
+				if usedLine[l] {
+					clash = true
+				}
+			}
+			if clash {
+				continue
+			}
+			for l := l1; l <= l2; l++ {
+				usedLine[l] = true
+			}
+			eds = append(eds, e)
+			parts = append(parts, local[i].kind)
+		}
+		if len(eds) < 2 {
+			continue
+		}
+		// apply from the end
+		for i := 1; i < len(eds); i++ {
+			for j := i; j > 0 && eds[j].pos > eds[j-1].pos; j-- {
+				eds[j], eds[j-1] = eds[j-1], eds[j]
+			}
+		}
+		c := append([]byte(nil), d.content...)
+		for _, e := range eds {
+			nc := append([]byte(nil), c[:e.pos]...)
+			nc = append(nc, e.ins...)
+			c = append(nc, c[e.pos+e.del:]...)
+		}
+		rw := &rewrite{kind: "RC-composed"}
+		if r.Intn(2) == 0 {
+			pre := []string{"  ", "\t", "    "}[r.Intn(3)]
+			var sb strings.Builder
+			for _, ln := range strings.SplitAfter(string(c), "\n") {
+				if strings.TrimRight(ln, "\n") != "" {
+					sb.WriteString(pre)
+				}
+				sb.WriteString(ln)
+			}
+			c = []byte(sb.String())
+			parts = append(parts, "R2-indent")
+			rw.indented = true
+		}
+		switch r.Intn(4) {
+		case 0:
+			c = []byte(strings.ReplaceAll(string(c), "\n", "\r\n"))
+			parts = append(parts, "R1-crlf")
+		case 1:
+			c = []byte(strings.ReplaceAll(string(c), "\n", "\r"))
+			parts = append(parts, "R1-cr")
+		}
+		rw.site, rw.content = strings.Join(parts, "+"), c
+		out = append(out, rw)
+	}
+	return out
+}
+
 func sortInts(a []int) {
 	for i := 1; i < len(a); i++ {
 		for j := i; j > 0 && a[j] < a[j-1]; j-- {
@@ -464,6 +569,8 @@ func C08(c *fw.Ctx) {
 		"blank lines / '#' comments (with several '#' inside) / '###' blocks before a directive line, trailing blanks after keyword, parameter, " +
 		"annotation, parenthesis and body lines, quoting of bare parameters, '//' <-> '/* */' annotations, implicit -> explicit context " +
 		"(validated with the reference automaton); quick: up to 3 sampled sites per rewrite kind and document, thorough: every legal site once; " +
+		"compositions: 3 / 12 per document of 2-6 single-site rewrites on different lines applied together, with re-indentation and a " +
+		"line-ending change on top (for rejected originals only verdict and error class are compared); " +
 		"legal sites come from the public lexeme stream; oracle: accepted stays accepted with an equal catalog (CR/CRLF in string values " +
 		"normalised), rejected stays rejected with the same error class and the error line moves with the text; distinct = distinct rewritten " +
 		"documents; non-trivial = every rewrite that changed the bytes")
@@ -525,7 +632,9 @@ func C08(c *fw.Ctx) {
 				continue
 			}
 			r := gen.Rng(c.Seed, c.ID, "rw", name)
-			for _, rw := range genRewrites(d, r, perKind == 0, perKind) {
+			singles := genRewrites(d, r, perKind == 0, perKind)
+			singles = append(singles, composeRewrites(d, singles, r, c.Pick(3, 12))...)
+			for _, rw := range singles {
 				if string(rw.content) == string(d.content) {
 					continue
 				}
@@ -576,8 +685,8 @@ func C08(c *fw.Ctx) {
 			}
 			if na != nb {
 				sig := "catalog-changed:" + rw.kind
-				if rw.kind == "R2-indent" && stripNotes(na) == stripNotes(nb) {
-					sig += ":only-multi-line-notes-differ"
+				if (rw.kind == "R2-indent" || rw.indented) && stripNotes(na) == stripNotes(nb) {
+					sig = "catalog-changed:R2-indent:only-multi-line-notes-differ"
 				}
 				c.Violate(sig, fmt.Sprintf("%s (%s) of %s changes the catalog: %s", rw.kind, rw.site, d.name, firstDiff(na, nb)), rp)
 			}
@@ -595,7 +704,7 @@ func C08(c *fw.Ctx) {
 			c.Violate("error-class-changed:"+rw.kind, fmt.Sprintf("%s (%s) of %s: %q becomes %q", rw.kind, rw.site, d.name, trunc(base.Err.Msg, 120), trunc(res.Err.Msg, 120)), rp)
 			return
 		}
-		if base.Err.Line > 0 && base.Err.Index < len(d.content) {
+		if base.Err.Line > 0 && base.Err.Index < len(d.content) && rw.kind != "RC-composed" {
 			want := rw.mapLine(base.Err.Line)
 			if res.Err.Line != want {
 				sig := "error-line:" + rw.kind
